@@ -15,6 +15,7 @@ use xplore::Ctx;
 use zlink_core::connection::socket::{ReadHalf, Socket, WriteHalf};
 use zlink_core::Connection;
 
+pub mod idlref;
 pub mod svc;
 
 /// How a `read` decides the number of bytes it returns.
